@@ -9,14 +9,16 @@ from ..core import Result
 use_repo()
 
 from ebpfcat.ebpfcat import (  # noqa: E402
-    SimpleEtherCat, SyncGroup, SyncManager)
+    Device, PacketVar, SimpleEtherCat, SyncGroup, SyncManager, TerminalVar)
 
 PROPERTY = "C30"
 LEVEL = "exploration"
 RULE = ("the real SyncGroup.start()/run() on the virtual loop over random "
         "terminal sets (1-5 terminals, FMMU and direct, read-only and "
         "read-write) with recording devices (update() notes the input it "
-        "sees and drives a fresh unique output); the bus model fills the "
+        "sees and drives a fresh unique output; a second device on some "
+        "terminals drives two bit outputs with truthy / falsy values of any "
+        "kind and reads a bit input); the bus model fills the "
         "input RAM with a cycle-dependent pattern before every cyclic frame "
         "and, per datagram and cycle, returns a correct or a wrong working "
         "counter; 8-30 cycles; some frames are lost (time-out path). History "
@@ -33,6 +35,37 @@ ASSUMPTIONS = ["the very first frame carries the presets append() stores; "
 MIN_EVALUATIONS = {"quick": 100, "thorough": 3000}
 
 
+BIT_VALUES = [0, 1, True, False, 2, 4, 3, 0x40, 255, 0, 1]
+
+
+class BitDevice(Device):
+    """drives two bit outputs (third output byte) with truthy / falsy values
+    of any kind and records the bit input it sees"""
+    b0 = TerminalVar()
+    b1 = TerminalVar()
+    bi = TerminalVar()
+
+    def __init__(self, t, bits, seed):
+        self.b0 = PacketVar(t, SyncManager.OUT, 2, bits[0])
+        self.b1 = PacketVar(t, SyncManager.OUT, 2, bits[1])
+        self.bi = PacketVar(t, SyncManager.IN, 1, bits[2])
+        self.bits = bits
+        self.rng = random.Random(seed)
+        self.seen = []
+        self.sent = []
+
+    def update(self):
+        self.seen.append(self.bi)
+        v0 = self.rng.choice(BIT_VALUES)
+        v1 = self.rng.choice(BIT_VALUES)
+        self.b0 = v0
+        self.b1 = v1
+        self.sent.append((v0, v1))
+
+    def program(self):
+        pass
+
+
 def plan(tier, seed):
     n = 40 if tier == "quick" else 300
     return [dict(seed=seed, shard=i, n=n) for i in range(16)]
@@ -40,6 +73,12 @@ def plan(tier, seed):
 
 def gen_case(rng):
     terms = simgroup.gen_terms(rng)
+    for d in terms:
+        # a second device with bit-sized variables on the same terminal
+        if d["rw"] and d["osz"] >= 4 and rng.random() < 0.6:
+            b0 = rng.randrange(8)
+            d["bits"] = [b0, rng.choice([b for b in range(8) if b != b0]),
+                         rng.randrange(8)]
     ncyc = rng.randint(8, 30)
     return dict(terms=terms, cycles=ncyc,
                 wrong=[[rng.random() < 0.15 for _ in range(8)]
@@ -69,6 +108,9 @@ def run_case(case):
     async def main(loop):
         ec = SimpleEtherCat("vf")
         ts, devs = simgroup.make_rig(case["terms"], ec)
+        bitdevs = [(ti, BitDevice(t, d["bits"], case["rseed"] + ti))
+                   for ti, (t, d) in enumerate(zip(ts, case["terms"]))
+                   if d.get("bits")]
 
         def policy(nf, data):
             idx, = struct.unpack_from("<I", data, 4)
@@ -104,7 +146,7 @@ def run_case(case):
                         for s, d in zip(sims, case["terms"])]))
             return [] if lost else [(0.0002, resp)]
         bus.attach(ec, loop, b, policy)
-        sg = SyncGroup(ec, devs)
+        sg = SyncGroup(ec, devs + [bd for _, bd in bitdevs])
         orig = sg.update_devices
 
         def upd(data):
@@ -113,7 +155,9 @@ def run_case(case):
             hists[-1]["updates"].append(dict(
                 data=bytes(data), errors=sg.wkc_errors - before,
                 seen=[d.seen[-1] for d in devs],
-                sent=[d.sent[-1] if d.sent else None for d in devs]))
+                sent=[d.sent[-1] if d.sent else None for d in devs],
+                bits=[(ti, bd.bits, bd.seen[-1], bd.sent[-1])
+                      for ti, bd in bitdevs]))
             return r
         sg.update_devices = upd
         for seg in range(2 if case.get("restart") else 1):
@@ -193,6 +237,16 @@ def check_run(case, hist, res, seg):
                               f"{u['seen'][ti]:#x}, response holds "
                               f"{want:#x}", case=case)
                 return False
+        for ti, bits, seen, _ in u["bits"]:
+            st = assign[ts[ti]][SyncManager.IN]
+            want = (c["resp"][st + 1] >> bits[2]) & 1
+            res.count("bit_inputs_compared")
+            if bool(seen) != bool(want) or seen not in (0, 1):
+                res.violation("unexplained:input-data",
+                              f"cycle {n}: bit {bits[2]} of {ts[ti].name} "
+                              f"seen as {seen!r}, response holds {want}",
+                              case=case)
+                return False
         # error accounting (from the second cycle on)
         # expected = the number of terminals that really process the
         # datagram (what the ring produced before the injected error), not
@@ -243,6 +297,23 @@ def check_run(case, hist, res, seg):
                               f"cycle {n}{tag}: output {u['sent'][ti]:#x} of "
                               f"{t.name} is not in the next frame "
                               f"({got:#x})", case=case)
+                return False
+        for ti, bits, _, vals in u["bits"]:
+            st = assign[ts[ti]][SyncManager.OUT]
+            byte = f["sent"][st + 2]
+            want = 0
+            for b, v in zip(bits, vals):
+                if v:
+                    want |= 1 << b
+            res.count("bit_outputs_compared", 2)
+            if any(v not in (0, 1) for v in vals):
+                res.count("bit_outputs_set_with_other_truthy_values")
+            if byte != want:
+                res.violation(
+                    "unexplained:output-data",
+                    f"cycle {n}{tag}: bits {bits[:2]} of {ts[ti].name} set "
+                    f"to {vals!r}: the next frame carries {byte:#010b} in "
+                    f"that byte, not {want:#010b}", case=case)
                 return False
     if len(res.samples) < 2:
         res.sample(dict(terms=case["terms"], cycles=len(hist["updates"]),
